@@ -28,11 +28,14 @@ def _prod(xs) -> int:
 class NdArr:
   """Row-major n-dimensional array of exact numbers."""
 
-  __slots__ = ('shape', 'data', 'kind')
+  __slots__ = ('shape', 'data', 'kind', 'view')
 
-  def __init__(self, shape: Sequence[int], data: Sequence[Any], kind: Optional[str] = None):
+  def __init__(self, shape: Sequence[int], data: Sequence[Any], kind: Optional[str] = None, view: bool = False):
     self.shape = tuple(int(s) for s in shape)
     self.data = list(data)
+    # True for the result of indexing / slicing: numpy would hand out a VIEW of the base array. The copy held here is good for
+    # reading; a store into it is refused (NotModelled), because it would have to change the base as well.
+    self.view = view
     # element kind when it is known: 'i' (an integer dtype) or 'f' (a float dtype); None = not tracked
     self.kind = kind
     if _prod(self.shape) != len(self.data):
@@ -115,6 +118,64 @@ class NdArr:
     step = _prod(self.shape[1:])
     sub = self.data[k * step:(k + 1) * step]
     return sub[0] if len(self.shape) == 1 else NdArr(self.shape[1:], sub)
+
+  # ------------------------------------------------- general indexing / stores
+  def _select(self, key):
+    """key: int | slice | tuple of them -> (flat positions, result shape)."""
+    if not isinstance(key, tuple):
+      key = (key,)
+    if len(key) > len(self.shape):
+      raise IndexError('too many indices for array')
+    key = key + (slice(None),) * (len(self.shape) - len(key))
+    axes, out_shape = [], []
+    for k, n in zip(key, self.shape):
+      if isinstance(k, bool) or not isinstance(k, (int, slice)):
+        raise NotModelled('index kind')
+      if isinstance(k, int):
+        if k < 0:
+          k += n
+        if not 0 <= k < n:
+          raise IndexError('index out of bounds')
+        axes.append([k])
+      else:
+        if any(x is not None and (isinstance(x, bool) or not isinstance(x, int)) for x in (k.start, k.stop, k.step)):
+          raise NotModelled('slice bounds')
+        r = list(range(*k.indices(n)))
+        axes.append(r)
+        out_shape.append(len(r))
+    st = self._strides()
+    pos = [sum(i * s_ for i, s_ in zip(idx, st)) for idx in itertools.product(*axes)]
+    return pos, tuple(out_shape)
+
+  def getitem(self, key):
+    pos, shape = self._select(key)
+    if not shape:
+      return self.data[pos[0]]
+    return NdArr(shape, [self.data[p] for p in pos], self.kind, view=True)
+
+  def setitem(self, key, value):
+    if self.view:
+      raise NotModelled('store through a view of another array')
+    pos, shape = self._select(key)
+    if isinstance(value, (list, tuple)):
+      value = NdArr.from_nested(value)
+    if isinstance(value, NdArr):
+      if value.shape != shape:
+        # numpy broadcasts the value; only the exact and the scalar-like cases are modelled
+        if len(value.data) == 1:
+          vals = [value.data[0]] * len(pos)
+        elif _prod(value.shape) == len(pos) and tuple(x for x in value.shape if x != 1) == tuple(x for x in shape if x != 1):
+          vals = list(value.data)
+        else:
+          raise ValueError(f'could not broadcast input array from shape {value.shape} into shape {shape}')
+      else:
+        vals = list(value.data)
+    else:
+      vals = [value] * len(pos)
+    if self.kind == 'i':
+      vals = [int(v) if isinstance(v, float) else v for v in vals]   # an integer array truncates what is stored into it
+    for p, v in zip(pos, vals):
+      self.data[p] = v
 
   # --------------------------------------------------------------- reshaping
   def reshape(self, shape) -> 'NdArr':
@@ -245,8 +306,75 @@ BIN = {'add': operator.add, 'subtract': operator.sub, 'multiply': operator.mul, 
        'maximum': lambda a, b: a if a >= b else b, 'minimum': lambda a, b: a if a <= b else b}
 
 
+def _int_kind(dtype) -> Optional[str]:
+  n = (getattr(dtype, 'name', None) or '').split('.')[-1]
+  if n.startswith(('int', 'uint')) or n == 'dtype.i':
+    return 'i'
+  if n.startswith('float') or n == 'dtype.f':
+    return 'f'
+  return None
+
+
+def np_create(name: str, args: list, kwargs: dict) -> Any:
+  """np.full / zeros / ones / arange / searchsorted on plain numbers and lists."""
+  def shape_of(x):
+    if isinstance(x, int) and not isinstance(x, bool):
+      return (x,)
+    if isinstance(x, (list, tuple)) and all(isinstance(v, int) and not isinstance(v, bool) for v in x):
+      return tuple(x)
+    raise NotModelled('shape')
+  dtype = kwargs.get('dtype')
+  if name in ('full', 'zeros', 'ones'):
+    extra = set(kwargs) - {'dtype', 'shape', 'fill_value'}
+    if extra or not (args or 'shape' in kwargs):
+      raise NotModelled(name)
+    shp = shape_of(kwargs.get('shape', args[0] if args else None))
+    if name == 'full':
+      fill = kwargs.get('fill_value', args[1] if len(args) > 1 else None)
+      if len(args) > 2:
+        dtype = args[2]
+    else:
+      fill = 0 if name == 'zeros' else 1
+      if len(args) > 1:
+        dtype = args[1]
+    if isinstance(fill, bool) or not isinstance(fill, (int, float)) and type(fill).__name__ != 'Fraction':
+      raise NotModelled('fill value')
+    kind = _int_kind(dtype) if dtype is not None else (None if name == 'full' else 'f')
+    if kind is None and name == 'full':
+      kind = 'i' if isinstance(fill, int) else 'f'
+    if kind is None:
+      raise NotModelled('dtype')
+    if kind == 'i' and not isinstance(fill, int):
+      fill = int(fill)
+    return NdArr(shp, [fill] * _prod(shp), kind)
+  if name == 'arange':
+    if set(kwargs) - {'dtype'} or not 1 <= len(args) <= 3 or any(isinstance(a, bool) or not isinstance(a, int) for a in args):
+      raise NotModelled('arange')
+    r = list(range(*args))
+    return NdArr((len(r),), r, 'i')
+  if name == 'searchsorted':
+    if set(kwargs) - {'side'} or len(args) != 2:
+      raise NotModelled('searchsorted')
+    a, v = args
+    seq = list(a.data) if isinstance(a, NdArr) and a.ndim == 1 else (list(a) if isinstance(a, list) else None)
+    if seq is None or isinstance(v, (list, NdArr)):
+      raise NotModelled('searchsorted operands')
+    right = kwargs.get('side', 'left') == 'right'
+    lo, hi = 0, len(seq)   # numpy's binary search, also on input that is not sorted
+    while lo < hi:
+      mid = lo + ((hi - lo) >> 1)
+      if (seq[mid] <= v) if right else (seq[mid] < v):
+        lo = mid + 1
+      else:
+        hi = mid
+    return lo
+  raise NotModelled(name)
+
+
 def np_call(name: str, args: list, kwargs: dict) -> Any:
   """numpy function `np.<name>` on arguments of which at least one is an NdArr."""
+  if name == 'searchsorted':
+    return np_create(name, args, kwargs)
   a0 = args[0] if args else None
   if name in ('min', 'amin', 'max', 'amax', 'sum'):
     f = {'min': BIN['minimum'], 'amin': BIN['minimum'], 'max': BIN['maximum'], 'amax': BIN['maximum'], 'sum': operator.add}[name]
